@@ -140,6 +140,11 @@ func c18(c *Ctx) {
 	}
 	r.Expl = "Structural clauses behind 'argument expressions form a consistent predicate algebra': evaluating any Expr (and everything it statically calls in package arg) writes no non-local memory, so an evaluation cannot change a later answer; Any's Eval returns (true,nil) on every path; In resolves its rows through the same constructor that wraps plain values in Equals and its evaluation is a disjunction over rows of a conjunction over positions (false only after all rows were tried); in the equality cascade every Value.Elem() is guarded by a Ptr/Interface kind test and is unreachable when the nil test of that operand is true. Equality semantics over all values is not decided."
 	r.RuleText = "one obligation per (rule, Expr implementation / function / call site)"
+	// R7: in package arg no Elem() follows a kind test that ruled the element-bearing kind out, and the error tests of the
+	// coercion helpers are not inverted (shared rules)
+	inArg := func(rel string) bool { return rel == "arg" }
+	checkElemUnderKindBelief(p, r, "C18.R7", inArg)
+	checkErrorPolarity(p, r, "C18.R7", inArg)
 	r.Floor("C18.R1", 3)
 	r.Floor("C18.R2", 1)
 	r.Floor("C18.R3", 3)
@@ -724,6 +729,35 @@ func c18(c *Ctx) {
 					}
 				}
 			})
+			// the identity comparison (Pointer() == Pointer()) of this function is entered for funcs: what leads to it is a
+			// func-kind test that is true for funcs (a predicate that never answers true sends every func on to DeepEqual)
+			eachInstr(f, func(i ssa.Instruction) {
+				bo, ok := i.(*ssa.BinOp)
+				if !ok || bo.Op != token.EQL {
+					return
+				}
+				px, okx := bo.X.(*ssa.Call)
+				py, oky := bo.Y.(*ssa.Call)
+				if !okx || !oky || calleeName(px.Common()) != "(reflect.Value).Pointer" || calleeName(py.Common()) != "(reflect.Value).Pointer" {
+					return
+				}
+				okGuard := false
+				for _, g := range guardsAt(bo.Block()) {
+					if !g.Pol {
+						continue
+					}
+					if kk, _, isK := kindTest(g.Cond); isK && kk == 19 {
+						okGuard = true
+					}
+					if c2, isCall := g.Cond.(*ssa.Call); isCall {
+						if cal := staticCallee(c2.Common()); cal != nil && isKindPredicateFn(cal, 19) {
+							okGuard = true
+						}
+					}
+				}
+				r.Check(okGuard, "C18.R4", "identity comparison in "+shortName(f)+" is entered for funcs", p.Pos(posOf(bo)), "guarded by a func-kind test that holds for funcs",
+					"the identity comparison of funcs is not entered through a test that is true exactly for func values (the predicate never answers true, or tests another kind): funcs fall through to DeepEqual, which is false for any two non-nil funcs, so Equals(f) rejects f")
+			})
 			if !hasFuncTest {
 				continue // a helper for other kinds (numbers/strings): funcs cannot reach it
 			}
@@ -740,6 +774,63 @@ func c18(c *Ctx) {
 			okF := tested[ops[0]] || tested[ops[1]]
 			r.Check(okF, "C18.R4", "deep comparison in "+shortName(f)+" comes after the func test of its operands", p.Pos(posOf(cl)), "isFunc(x) on the value handed to DeepEqual",
 				"the func-identity test is made on other values than the ones finally compared (e.g. before pointers/interfaces were unwrapped): a func passed through an interface-typed parameter reaches DeepEqual, which is false for any two non-nil funcs, so Equals(f) rejects f")
+		}
+	}
+	// (e) a partial comparison helper — results (answer, decided) — declares the question decided only for the kinds it is
+	// written for: every return with decided == true lies behind a kind test (or kind predicate) of an operand that held
+	for _, f := range p.FuncsIn("arg") {
+		if f.Blocks == nil || f.Signature.Results().Len() != 2 || !isBool(f.Signature.Results().At(0).Type()) || !isBool(f.Signature.Results().At(1).Type()) || len(f.Params) != 2 {
+			continue
+		}
+		positive := func(gs []Guard) bool {
+			for _, g := range gs {
+				if !g.Pol {
+					// `k != K` known false is `k == K` held
+					if bo, ok := g.Cond.(*ssa.BinOp); ok && bo.Op == token.NEQ {
+						if _, _, isK := kindTest(&ssa.BinOp{Op: token.EQL, X: bo.X, Y: bo.Y}); isK {
+							return true
+						}
+					}
+					continue
+				}
+				if _, _, isK := kindTest(g.Cond); isK {
+					return true
+				}
+				if c2, isCall := g.Cond.(*ssa.Call); isCall {
+					if cal := staticCallee(c2.Common()); cal != nil && relPkg(cal) == "arg" && len(kindPredicate(c2)) > 0 {
+						return true
+					}
+					if cal := staticCallee(c2.Common()); cal != nil && relPkg(cal) == "arg" && isValueKindSetPredicate(cal) {
+						return true
+					}
+				}
+			}
+			return false
+		}
+		k := 0
+		for _, ret := range returnsOf(f) {
+			c, isC := retResult(ret, 1).(*ssa.Const)
+			if isC && c.Value != nil && c.Value.String() == "false" {
+				continue
+			}
+			k++
+			b := ret.Block()
+			okWays := positive(guardsAt(b))
+			// or: some join on the way here is entered only over edges on which a kind test held (`a || b` conditions)
+			for d := b; d != nil && !okWays; d = d.Idom() {
+				if len(d.Preds) < 2 {
+					continue
+				}
+				all := true
+				for _, pr := range d.Preds {
+					if !positive(knownAtEdge(pr, d)) {
+						all = false
+					}
+				}
+				okWays = all
+			}
+			r.Check(okWays, "C18.R4", "partial comparison "+shortName(f)+" decides only for its kinds #"+itoa2(k), p.Pos(posOf(ret)), "decided == true only behind a kind test that held",
+				"a partial comparison helper reports the question as decided on a way on which none of its kind tests held: values of every other kind (structs, slices, pointers) are declared unequal before the general comparison is reached")
 		}
 	}
 	// (c) in a two-operand comparison each operand has its own nil test: the nil predicate is applied to (something derived
@@ -845,6 +936,32 @@ func isKindPredicateFn(cal *ssa.Function, k int64) bool {
 			continue
 		}
 		return false
+	}
+	return found
+}
+
+
+// isValueKindSetPredicate: a module function of one reflect.Value returning bool that answers true only behind kind tests of
+// its parameter (a switch over kinds): isNum and the like.
+func isValueKindSetPredicate(cal *ssa.Function) bool {
+	if cal == nil || cal.Blocks == nil || len(cal.Params) != 1 || cal.Signature.Results().Len() != 1 || !isBool(cal.Signature.Results().At(0).Type()) {
+		return false
+	}
+	if !strings.HasSuffix(cal.Params[0].Type().String(), "reflect.Value") {
+		return false
+	}
+	found := false
+	for _, ret := range returnsOf(cal) {
+		c, ok := retResult(ret, 0).(*ssa.Const)
+		if !ok {
+			return false
+		}
+		if c.Value != nil && c.Value.String() == "true" {
+			if len(kindsInto(ret.Block())) == 0 {
+				return false
+			}
+			found = true
+		}
 	}
 	return found
 }
